@@ -43,6 +43,8 @@ void tinyjambu_permutation_128(tinyjambu_128_state_t *state, unsigned rounds)
         tinyjambu_steps_32(s2, s3, s0, s1, state->k[2]);
         tinyjambu_steps_32(s3, s0, s1, s2, state->k[3]);
 
+        TINYJAMBU_VERIF_POINT(1);
+
         /* Bail out if this is the last round */
         if ((--rounds) == 0)
             break;
